@@ -1,0 +1,19 @@
+//go:build verif
+
+package query
+
+import "github.com/thought-machine/please/src/core"
+
+// Verification hook for property C22 (`//dir/...` expansion; completion of `//dir/`). Add-only; compiled only
+// with -tags verif.
+
+// VerifC22ContainsPackage runs the unexported containsPackage: is there a BUILD file in dir or below it
+// (breadth-first, not descending into directories for which isExcluded holds)?
+func VerifC22ContainsPackage(config *core.Configuration, dir string) bool {
+	return containsPackage(config, dir)
+}
+
+// VerifC22IsExcluded runs the unexported isExcluded.
+func VerifC22IsExcluded(config *core.Configuration, dir string) bool {
+	return isExcluded(config, dir)
+}
